@@ -330,10 +330,33 @@ def removeLastIfS (out : List Cps) : List Cps :=
   | some l => if isBlank l then out.dropLast else out
   | none => out
 
+/-- `val.endswith(' ') and not val.endswith('\\ ')` (`serialize.py:271`; a name may end with an escaped space) -/
+def endsWithRawSpace (val : Cps) : Bool :=
+  match val.reverse with
+  | 0x20 :: 0x5C :: _ => false
+  | 0x20 :: _ => true
+  | _ => false
+
+/-- `serialize.py:274-277`: written without white space `/` + `*…` would open a comment and `*` `~` `|` `^` `$`
+followed by `=` would become one token (`self.out and (…)`) -/
+def wouldFuse (out : List Cps) (val : Cps) : Bool :=
+  match out.getLast? with
+  | none => false
+  | some l =>
+    (val.head? = some 0x2A && l = [0x2F])
+      || (val = [0x3D] && (l = [0x2A] || l = [0x7E] || l = [0x7C] || l = [0x5E] || l = [0x24]))
+
+/-- the APPEND step of `Out.append` (`serialize.py:271-281`, not `indent`) -/
+def outPush (out : List Cps) (val : Cps) : List Cps :=
+  let out := if endsWithRawSpace val then removeLastIfS out else out
+  let out := if wouldFuse out val then out ++ [[0x20]] else out
+  out ++ [val]
+
 /-- `Out.append(val, type_)` with the default keyword arguments (`space=True, keepS=False, indent=False,
 alwaysS=False`). `isObj`: `val` is an object with a `cssText` (then `val` here is that text).
-Not modelled (never passed by the callers modelled here): COMMENT items, objects with `mediaText`,
-`val == '}'` with `indentClosingBrace`. -/
+Not modelled (never passed by the callers modelled here): items of type `'COMMENT'` (a comment inside a value has
+the class `CSSComment` as its type and takes the `cssText` path), objects with `mediaText`, `val == '}'` with
+`indentClosingBrace`, the selector combinator types. -/
 def outAppend (p : Prefs) (out : List Cps) (val : Cps) (isObj : Bool) (t : ItemType) : List Cps :=
   -- `if val or type_ in ('STRING', 'URI')` — an object is truthy
   if val.isEmpty && !isObj && t ≠ .string && t ≠ .uri then out else
@@ -350,8 +373,7 @@ def outAppend (p : Prefs) (out : List Cps) (val : Cps) (isObj : Bool) (t : ItemT
     else (out, val)
   let val := pre.2
   -- APPEND
-  let out := if val.getLast? = some 0x20 then removeLastIfS pre.1 else pre.1
-  let out := out ++ [val]
+  let out := outPush pre.1 val
   -- POST
   if isSubstr val (cps "+>~") then
     -- `self.out.insert(-1, ' ')`, `self.out.append(' ')` (not a selector combinator type here)
